@@ -83,7 +83,8 @@ public:
 #endif
 
     constexpr static size_t SLOTS_NUM =
-        N ? 1ULL<< (8 * sizeof(size_t) - __builtin_clzll(N - 1)) : 0;
+        N > 1 ? 1ULL<< (8 * sizeof(size_t) - __builtin_clzll(N - 1))
+              : (N ? 2 : 0);
 
     const size_t capacity;
     const size_t mask;
